@@ -170,6 +170,13 @@ def main(argv):
             pre_infra.append(("gen/symkern.py cannot extract the kernels' expressions from the current headers "
                               "(does not compile with the symbolic scalar, branches on a scalar value, reads an "
                               "uninitialised scalar, throws or crashes)", out[-3000:]))
+    if os.path.exists(os.path.join(pipeline.COQ, f"Properties_{pid}_O.v")):
+        # coq/gen/OpsGen_*.v (owners: C03 C04 C06 C07): whole public operations run over the symbolic scalar type
+        rc, out, _ = pipeline.sh([sys.executable, os.path.join(VERIF, "gen", "symops.py")], timeout=900)
+        if rc != 0:
+            pre_infra.append(("gen/symops.py cannot extract the results of the public operations from the current headers "
+                              "(does not compile with the symbolic scalar, branches on a scalar value, reads an "
+                              "uninitialised scalar, throws or crashes)", out[-3000:]))
     bad = pipeline.hygiene_gate()
     ok, thms, assumptions, plog = pipeline.prove(pid)
     obligations = len(thms) + 1        # + the correspondence relation
